@@ -30,8 +30,8 @@ def env():
     class Remote:
         scheme = "coap"; hostinfo = "peer"; hostinfo_local = "srv"; is_multicast = False; is_multicast_locally = False
         maximum_block_size_exp = 6; maximum_payload_size = 1024; blockwise_key = ("peer",)
-    log = []
-    def observe(self, request):
+    log = []; nba_log = []; obs_log = []; wkc_asked = []
+    def describe(self, request):
         try:
             uri = request.get_request_uri()
             assert uri.startswith(HOST + "/"), uri
@@ -39,7 +39,9 @@ def env():
         except ValueError:
             segs = "exn:ValueError"
         orig = getattr(request, "_original_request_path", None)
-        log.append({"h": self.id, "seen": list(request.opt.uri_path), "orig": None if orig is None else list(orig), "uri": segs})
+        return {"h": self.id, "seen": list(request.opt.uri_path), "orig": None if orig is None else list(orig), "uri": segs}
+    def observe(self, request):
+        log.append(describe(self, request))
         return aiocoap.Message(payload=str(self.id).encode())
     class Leaf(resource.Resource):
         def __init__(self, id, desc):
@@ -47,11 +49,18 @@ def env():
         def get_link_description(self):
             return None if self.desc is None else dict((k, v) for k, v in self.desc)
         async def render_get(self, request): return observe(self, request)
+        async def needs_blockwise_assembly(self, request):
+            nba_log.append(describe(self, request)); return self.id % 2 == 0
+        async def add_observation(self, request, serverobservation):
+            obs_log.append(describe(self, request))
     class NoDesc(Leaf):
         @property
         def get_link_description(self): raise AttributeError("no get_link_description")     # hasattr(...) is False
     class Opaque(Leaf, resource.PathCapable):
         pass
+    class Wkc(resource.WKCResource):
+        async def needs_blockwise_assembly(self, request):
+            wkc_asked.append(1); return await super().needs_blockwise_assembly(request)
     captured = []
     orig_lftm = resource.link_format_to_message
     def capture(request, linkformat, *a, **kw):
@@ -64,7 +73,7 @@ def env():
         except StopIteration as e: return e.value
         coro.close(); raise RuntimeError("coroutine suspended")
     _env.update(aiocoap=aiocoap, resource=resource, error=error, Direction=Direction, Pipe=Pipe, Remote=Remote, log=log, Leaf=Leaf, NoDesc=NoDesc,
-                Opaque=Opaque, captured=captured, drive=drive, logger=logging.getLogger("c17"))
+                Opaque=Opaque, captured=captured, drive=drive, nba_log=nba_log, obs_log=obs_log, wkc_asked=wkc_asked, Wkc=Wkc, logger=logging.getLogger("c17"))
     return _env
 
 def make_request(E, path, abbrev=None, query=None, orig=None):
@@ -114,6 +123,19 @@ def ref_links(site):
         if isinstance(c, RefSite):
             out += [["/" + "/".join(p) + h, d] for h, d in ref_links(c)]
     return out
+def ref_copy(x):
+    """the same Site object at a second place behaves like a copy as long as nobody mutates it afterwards"""
+    if not isinstance(x, RefSite): return x
+    c = RefSite(); c.res = dict(x.res); c.sub = {k: ref_copy(v) for k, v in x.sub.items()}
+    return c
+def ref_entries(site, prefix=()):
+    """(request path, registered resource) for every resource in the tree, in registration order through nested sites"""
+    for p, r in site.res.items():
+        yield (prefix + (p if (p or not prefix) else ("",)), r)
+    for p, c in site.sub.items():
+        if isinstance(c, RefSite): yield from ref_entries(c, prefix + p)
+def href_path(h):
+    return () if h == "/" else tuple(h[1:].split("/"))
 def rfc6690_match(link, k, v):
     """RFC 6690 section 4.1: exact or prefix ('*') match on href or on the named attribute (names case-insensitive); rt/if/rel/ct are
     space separated lists; a missing attribute or one without value never matches (not even '*')."""
@@ -215,11 +237,17 @@ class C17(fw.Property):
             out.append(list(prefix + p))
             if c is not None: out += self._shadow_paths(c, prefix + p)
         return out
-    def _shadow_sites(self, node, addr=()):
-        out = [list(addr)]
+    def _shadow_sites(self, node, addr=(), mutable=False):
+        """addresses of the Site objects; mutable=True leaves out sites that are registered at two places (frozen: the value model
+        follows an aliased Site only while nobody mutates it)"""
+        out = [] if (mutable and node.get("frozen")) else [list(addr)]
         for p, c in node["sub"].items():
-            if c is not None: out += self._shadow_sites(c, addr + (list(p),))
+            if c is not None: out += self._shadow_sites(c, addr + (list(p),), mutable)
         return out
+    def _freeze(self, node):
+        node["frozen"] = True
+        for c in node["sub"].values():
+            if c is not None: self._freeze(c)
     def _shadow_at(self, node, addr):
         for k in addr: node = node["sub"][tuple(k)]
         return node
@@ -234,7 +262,7 @@ class C17(fw.Property):
             r = rng.random()
             build = i < n * 0.45
             if r < (0.75 if build else 0.25):
-                sites = self._shadow_sites(shadow)
+                sites = self._shadow_sites(shadow, mutable=True)
                 addr = rng.choice(sites) if rng.random() < 0.6 else sites[-1] if rng.random() < 0.5 else []
                 node = self._shadow_at(shadow, addr)
                 existing = list(node["res"]) + list(node["sub"])
@@ -250,15 +278,30 @@ class C17(fw.Property):
                 elif thing["kind"] == "opaque": node["sub"][tuple(path)] = None
                 else: node["res"][tuple(path)] = True
             elif r < (0.80 if build else 0.40):
-                sites = self._shadow_sites(shadow); addr = rng.choice(sites); node = self._shadow_at(shadow, addr)
+                sites = self._shadow_sites(shadow, mutable=True); addr = rng.choice(sites); node = self._shadow_at(shadow, addr)
                 existing = list(node["res"]) + list(node["sub"])
                 path = list(rng.choice(existing)) if existing and rng.random() < 0.85 else self._rand_path(rng)
                 ops.append({"op": "remove", "addr": addr, "path": path})
                 if tuple(path) in node["sub"]: del node["sub"][tuple(path)]
                 elif tuple(path) in node["res"]: del node["res"][tuple(path)]
+            elif r < 0.955 and r >= 0.93:
+                # the same Site object at a second place (not inside itself; frozen afterwards)
+                srcs = [a for a in self._shadow_sites(shadow) if a]
+                if not srcs: continue
+                src = rng.choice(srcs)
+                dsts = [a for a in self._shadow_sites(shadow, mutable=True) if a[:len(src)] != src]
+                if not dsts: continue
+                dst = rng.choice(dsts); path = self._rand_path(rng) if rng.random() < 0.7 else list(src[-1])
+                ops.append({"op": "alias", "src": src, "dst": dst, "path": path})
+                node = self._shadow_at(shadow, src); self._freeze(node); self._shadow_at(shadow, dst)["sub"][tuple(path)] = node
             elif r < 0.93:
                 full = self._shadow_paths(shadow)
                 path = self._near(rng, rng.choice(full)) if full and rng.random() < 0.92 else self._rand_path(rng)
+                q = rng.random()
+                if q < 0.14:
+                    ops.append({"op": "locate", "observe": q < 0.07, "path": path}); continue
+                if q < 0.19:
+                    ops.append({"op": "probe"}); continue
                 pipe = rng.random() < 0.5; abbrev = None; query = None
                 if pipe and rng.random() < 0.12:
                     abbrev = rng.choice([0, 0, 1, 2, 301, 403, 7, 99]); path = [] if rng.random() < 0.8 else path
@@ -343,7 +386,7 @@ class C17(fw.Property):
         if t["kind"] == "res": return (E["NoDesc"] if t.get("nodesc") else E["Leaf"])(t["id"], t["desc"])
         if t["kind"] == "site": return E["resource"].Site()
         if t["kind"] == "opaque": return E["Opaque"](t["id"], [])
-        return E["resource"].WKCResource(root.get_resources_as_linkheader, impl_info=t["impl"])
+        return E["Wkc"](root.get_resources_as_linkheader, impl_info=t["impl"])
 
     def _site_at(self, E, root, addr):
         s = root
@@ -369,8 +412,42 @@ class C17(fw.Property):
                         out.append({"links": ls, "payload": str(s.get_resources_as_linkheader())})
                 except Exception as e: out.append(exn_name(e))
                 continue
+            if o["op"] == "alias":
+                src = self._site_at(E, root, o["src"]); dst = self._site_at(E, root, o["dst"])
+                if src is None or dst is None: out.append("noaddr"); continue
+                dst.add_resource(list(o["path"]), src); out.append("done"); continue
+            if o["op"] == "probe":
+                hits = []
+                for l in root.get_resources_as_linkheader().links:
+                    if not l.href.startswith("/"): continue
+                    path = [] if l.href == "/" else l.href[1:].split("/")
+                    E["log"].clear(); E["captured"].clear(); E["nba_log"].clear(); E["wkc_asked"].clear()
+                    try:
+                        E["drive"](root.render(make_request(E, path)))
+                        hits.append([l.href, E["log"][0]["h"] if E["log"] else "wkc"])
+                    except E["error"].NotFound: hits.append([l.href, None])
+                out.append({"probe": hits}); continue
+            if o["op"] == "locate":
+                req = make_request(E, o["path"])
+                E["nba_log"].clear(); E["obs_log"].clear(); E["wkc_asked"].clear(); E["log"].clear()
+                try:
+                    if o["observe"]:
+                        ret = E["drive"](root.add_observation(req, object())); lg = E["obs_log"]
+                        assert ret is None
+                    else:
+                        ret = E["drive"](root.needs_blockwise_assembly(req)); lg = E["nba_log"]
+                except Exception as e:
+                    out.append(exn_name(e)); continue
+                assert not E["log"] and len(lg) <= 1, "locate ran a render handler or two children"
+                if lg:
+                    assert o["observe"] or ret == (lg[0]["h"] % 2 == 0), "needs_blockwise_assembly did not return the child's answer"
+                    out.append(dict(lg[0]))
+                elif E["wkc_asked"]: out.append("wkc")
+                else:
+                    out.append("default" if (o["observe"] or ret is True) else "default-not-true")
+                continue
             req = make_request(E, o["path"], o["abbrev"], o["query"])
-            E["log"].clear(); E["captured"].clear()
+            E["log"].clear(); E["captured"].clear(); E["nba_log"].clear(); E["wkc_asked"].clear()
             try:
                 if o["pipe"]:
                     pipe = E["Pipe"](req, E["logger"]); events = []
@@ -440,6 +517,9 @@ class C17(fw.Property):
             if o["op"] == "add": ops.append("OAdd %s %s %s" % (glist([self.gpath(k) for k in o["addr"]]), self.gpath(o["path"]), self.gthing(o["thing"])))
             elif o["op"] == "remove": ops.append("ORemove %s %s" % (glist([self.gpath(k) for k in o["addr"]]), self.gpath(o["path"])))
             elif o["op"] == "list": ops.append("OList %s" % glist([self.gpath(k) for k in o["addr"]]))
+            elif o["op"] == "alias": ops.append("OAlias %s %s %s" % (glist([self.gpath(k) for k in o["src"]]), glist([self.gpath(k) for k in o["dst"]]), self.gpath(o["path"])))
+            elif o["op"] == "probe": ops.append("OProbe")
+            elif o["op"] == "locate": ops.append("OLocate %s %s" % (gbool(o["observe"]), self.gmsg(o["path"])))
             else:
                 if isinstance(o["query"], list): return None         # several filters: outside the model (O1)
                 ops.append("ORequest %s %s %s" % (gbool(o["pipe"]), self.gmsg(o["path"], o["abbrev"]), gopt(o["query"], gstr)))
@@ -476,6 +556,14 @@ class C17(fw.Property):
             if x.name == "RDone": out.append("done")
             elif x.name == "RNoAddr": out.append("noaddr")
             elif x.name == "RExn": out.append(self._exn(x.args[0]))
+            elif x.name == "RDefault": out.append("default")
+            elif x.name == "RWkcLeaf": out.append("wkc")
+            elif x.name == "RProbe":
+                def hit(v):
+                    v = self._opt(v, lambda y: y)
+                    if v is None: return None
+                    v = self._opt(v); return "wkc" if v is None else v
+                out.append({"probe": [[h, hit(v)] for h, v in x.args[0]]})
             elif x.name == "RHandled":
                 id_, seen, orig, uri = x.args
                 out.append({"h": id_, "seen": list(seen), "orig": self._opt(orig, list), "uri": list(uri.args[0]) if uri.name == "Ok" else self._exn(uri.args[0])})
@@ -534,6 +622,43 @@ class C17(fw.Property):
                 else:
                     v = self.check_listing(where, r, ref_links(s), None, None)
                     if v: return v
+                return None
+            if o["op"] == "alias":
+                src = ref_at(root, o["src"]); dst = ref_at(root, o["dst"])
+                if src is None or dst is None:
+                    return None if r == "noaddr" else ("C17:harness-address", "%s: reference has no such sites, result %s" % (where, r))
+                if r != "done": return ("C17:add-failed", "%s -> %s" % (where, r))
+                dst.sub[tuple(o["path"])] = ref_copy(src)
+                return None
+            if o["op"] == "probe":
+                if not (isinstance(r, dict) and "probe" in r): return ("C17:listing-exception", "%s -> %s" % (where, fw.jdump(r)[:200]))
+                want_hrefs = [h for h, _ in ref_links(root) if h.startswith("/")]
+                if [h for h, _ in r["probe"]] != want_hrefs:
+                    return ("C17:listing-order-or-multiplicity", "%s: listed hrefs %r, registered (in registration order, each once) %r" % (where, [h for h, _ in r["probe"]], want_hrefs))
+                for h, hit in r["probe"]:
+                    exp = ref_route(root, href_path(h))
+                    e = None if exp is None else ("wkc" if exp[1].get("kind") == "wkc" else exp[1]["id"])
+                    if hit != e: return ("C17:listed-href-routes-elsewhere", "%s: requesting listed href %r ran %r, the routing rule says %r" % (where, h, hit, e))
+                hits = dict((h, x) for h, x in r["probe"])
+                for path, thing in ref_entries(root):
+                    d = [["ct", "40"]] if thing["kind"] == "wkc" else thing["desc"]
+                    exp = ref_route(root, path)
+                    if d is None or exp is None or exp[1] is not thing or any("/" in c for c in path) or path == ("",): continue
+                    h = "/" + "/".join(path)
+                    if h not in hits: return ("C17:routable-resource-not-listed", "%s: %r is served at %r but %r is not listed" % (where, thing, path, h))
+                return None
+            if o["op"] == "locate":
+                path = tuple(o["path"]); exp = ref_route(root, path); what = "add_observation" if o["observe"] else "needs_blockwise_assembly"
+                if isinstance(r, str) and r.startswith("exn:"): return ("C17:routing-exception:" + r[4:], "%s: %s raised %s" % (where, what, r))
+                if r == "default-not-true": return ("C17:needs_blockwise_assembly-default-wrong", "%s: no child found, but the answer is not True" % where)
+                if exp is None or (exp[1].get("kind") == "wkc" and o["observe"]):
+                    return None if r == "default" else ("C17:%s-dispatch-differs-from-render" % what, "%s: render would give 4.04 / not observable, %s reached %s" % (where, what, fw.jdump(r)[:200]))
+                if exp[1].get("kind") == "wkc":
+                    return None if r == "wkc" else ("C17:%s-dispatch-differs-from-render" % what, "%s: render reaches the WKC resource, %s gave %s" % (where, what, fw.jdump(r)[:200]))
+                if not (isinstance(r, dict) and r.get("h") == exp[1]["id"] and tuple(r["seen"]) == tuple(exp[2])):
+                    return ("C17:%s-dispatch-differs-from-render" % what, "%s: render reaches %s with remaining path %r, %s gave %s" % (where, exp[1]["id"], exp[2], what, fw.jdump(r)[:200]))
+                if r["orig"] is None or tuple(r["orig"]) != path or r["uri"] != (list(path) or [""]):
+                    return ("C17:original-path-lost", "%s: %s child sees original path %r / uri %r, request path %r" % (where, what, r["orig"], r["uri"], path))
                 return None
             # ---- request
             path = tuple(o["path"])
@@ -661,6 +786,10 @@ class C17(fw.Property):
             # a request that the reference routes through at least one nested site, and a 4.04, in the same history
             root = RefSite(); nested = False
             for o, r in zip(inp["ops"], rs):
+                if o["op"] in ("probe", "locate"): continue
+                if o["op"] == "alias":
+                    if r == "done": ref_at(root, o["dst"]).sub[tuple(o["path"])] = ref_copy(ref_at(root, o["src"]))
+                    continue
                 if o["op"] == "request":
                     p = tuple(o["path"])
                     if o["abbrev"] is None and p not in root.res and ref_route(root, p) is not None and isinstance(r, dict) and "h" in r: nested = True
